@@ -8,8 +8,12 @@ package state
 // The flag byte array covers BitSize bits; the eight built-in flags exist.
 //@ pred flagsOk(st) = st != nil && st.BitSize >= 8 && len(st.Flags) * 8 >= int(st.BitSize)
 //@ pred flag(st, i) = bit(st.Flags[i / 8], i % 8)
-//@ pred otherFlagsSame(st, i) = forall(j, 0, 8 * len(st.Flags), j != i ==> flag(st, j) == old(flag(st, j)))
-//@ pred sameFlags(st) = forall(j, 0, 8 * len(st.Flags), flag(st, j) == old(flag(st, j)))
+// flag sets are compared bytewise (and bitwise inside the one byte an operation touches)
+//@ pred otherFlagsSame(st, i) = len(st.Flags) == old(len(st.Flags)) && forall(k, 0, len(st.Flags), k != i / 8 ==> st.Flags[k] == old(st.Flags[k]))
+//@   && forall(n, 0, 8, n != i % 8 ==> bit(st.Flags[i / 8], n) == old(bit(st.Flags[i / 8], n)))
+//@ pred sameFlags(st) = len(st.Flags) == old(len(st.Flags)) && forall(k, 0, len(st.Flags), st.Flags[k] == old(st.Flags[k]))
+// flags 8 and up (client-defined) are unchanged
+//@ pred clientFlagsSame(st) = len(st.Flags) == old(len(st.Flags)) && forall(k, 1, len(st.Flags), st.Flags[k] == old(st.Flags[k]))
 //@ pred samePath(st) = len(st.ExecPath) == old(len(st.ExecPath)) && forall(i, 0, len(st.ExecPath), st.ExecPath[i] == old(st.ExecPath[i]))
 //@ pred samePosition(st) = samePath(st) && st.SizeIdx == old(st.SizeIdx)
 
@@ -56,6 +60,7 @@ package state
 
 //@ func (*State).Top
 //@   serves C04
+//@   ensures @errs result1 == nil || !errIs(result1, IndexError)
 //@   requires st != nil
 //@   ensures @top (len(st.ExecPath) == 0 ==> result1 != nil && !result0) && (len(st.ExecPath) > 0 ==> result1 == nil && result0 == (len(st.ExecPath) == 1))
 
@@ -75,6 +80,7 @@ package state
 
 //@ func (*State).Up
 //@   serves C04
+//@   ensures @errs result1 == nil || !errIs(result1, IndexError)
 //@   requires st != nil
 //@   modifies st.ExecPath, st.SizeIdx, st.Moves, st.lastMove
 //@   ensures @empty old(len(st.ExecPath)) == 0 ==> result1 != nil && samePosition(st) && unchanged(st.Moves, st.lastMove)
@@ -85,6 +91,7 @@ package state
 
 //@ func (*State).Next
 //@   serves C04
+//@   ensures @errs result1 == nil || !errIs(result1, IndexError)
 //@   requires st != nil
 //@   modifies st.SizeIdx, st.Moves, st.lastMove
 //@   ensures @empty len(st.ExecPath) == 0 ==> result1 != nil && unchanged(st.SizeIdx, st.Moves, st.lastMove)
@@ -93,6 +100,7 @@ package state
 
 //@ func (*State).Previous
 //@   serves C04
+//@   ensures @errs result1 == nil || (result1 == IndexError && len(st.ExecPath) > 0 && old(st.SizeIdx) == 0) || !errIs(result1, IndexError)
 //@   requires st != nil
 //@   modifies st.SizeIdx, st.Moves, st.lastMove
 //@   ensures @empty len(st.ExecPath) == 0 ==> result1 != nil && unchanged(st.SizeIdx, st.Moves, st.lastMove)
